@@ -143,6 +143,14 @@ theorem z1d_machine_increasing (L R o : Nat) (ho : o ≤ 1) (hL : 0 < L) (hR : 0
   rw [List.range_eq_range']
   exact z1dRun_range' L R o ho hL hR n 0 _ (z1dInv_fresh L R o ho hL hR)
 
+
+/-- the `@cache` of `project` is modelled as a memo of the first answer per index that is never evicted: a repeated ask
+returns the first answer, for every object state and every history in between.  (A bounded cache would not have this
+property: the recomputed answer comes from the moved-on `_kk`.) -/
+theorem z1d_memo_stable (L R o : Nat) (s : Z1dState) (i : Nat) (hist : List Nat) :
+    (z1dStep L R o (z1dRun L R o (z1dStep L R o s i).1 hist).1 i).2 = (z1dStep L R o s i).2 :=
+  z1d_memo_stable' L R o s i hist
+
 /-- FULL STATEMENT THAT DOES NOT HOLD (property: "all call orders of the stateful projections"):
   `∀ history, (z1dRun L R o fresh history).2 = history.map (z1dProject L R o)`.
 Negation witness on `[-2, 5]`: asked `project(6)` first, the object answers 4 (not 5); `project(5)` then answers 4 as
